@@ -18,6 +18,7 @@ Section IrInd.
   Hypothesis Htup : forall es, Forall P es -> P (ITup es).
   Hypothesis Hcall : forall c fw, P (ICall c fw).
   Hypothesis Hlit : P ILit.
+  Hypothesis Hrec : forall es, Forall P es -> P (IRec es).
   Hypothesis Hunion : forall idc es, Forall P es -> P (IUnion idc es).
   Fixpoint ir_ind' (e: ir) : P e :=
     let go := fix go (es: list ir) : Forall P es :=
@@ -31,6 +32,7 @@ Section IrInd.
     | ITup es => Htup es (go es)
     | ICall c fw => Hcall c fw
     | ILit => Hlit
+    | IRec es => Hrec es (go es)
     | IUnion idc es => Hunion idc es (go es)
     end.
 End IrInd.
@@ -126,7 +128,7 @@ Section PackLabels.
   Lemma pack_labels_all : forall v, P_lab v.
   Proof.
     induction v as [z | | z | l0 | k l0 xs IH | k l0 kvs IH | c l0 fs IH] using lv_ind';
-      intros call e; induction e as [| | | e' IHe | | e' IHe | ke IHk ve IHv | es IHes | c' fw | | idc es IHes] using ir_ind';
+      intros call e; induction e as [| | | e' IHe | | e' IHe | ke IHk ve IHv | es IHes | c' fw | | res IHres | idc es IHes] using ir_ind';
       intros n Ho Hn;
       try (rewrite rp_id; apply ret_old; assumption);
       try (rewrite rp_opt; first [apply ret_old; reflexivity | apply IHe; assumption]; fail);
@@ -198,6 +200,32 @@ Section PackLabels.
         - destruct (Hys l Hl) as [? | [? ?]]; [left; assumption | right; lia]. }
       destruct (map_st F kvs (S n)) as [ys n']. destruct HM as [H1 H2].
       split; [lia |]. unfold lab_ok; cbn [labels]; apply node_ok; [lia | exact H2].
+    - (* VMap, IRec *)
+      simpl.
+      assert (Hxs: Forall (fun kv : lv * lv => forall (e: ir) m, n0 <= m ->
+                 let (y, m') := (let (k0, x) := kv in let (y0, m1) := run_pack E x call e m in ((k0, y0), m1)) in
+                 m <= m' /\ (forall l, In l (let (a, b) := y in labels a ++ labels b) -> l < n0 \/ (m <= l /\ l < m'))) kvs).
+      { simpl in Ho. apply andb_prop in Ho. destruct Ho as [_ Ho]. apply forallb_Forall in Ho.
+        pose proof (Forall_and _ _ _ IH Ho) as H. eapply Forall_impl; [| exact H].
+        intros [k0 x] [[Hk Hx] Hox] e m Hm. simpl in *. apply andb_prop in Hox. destruct Hox as [Hok Hox].
+        specialize (Hx call e m Hox Hm). destruct (run_pack E x call e m) as [y0 m1]. destruct Hx as [Hx1 Hx2].
+        split; [lia |]. intros l Hl. apply in_app_or in Hl. destruct Hl as [Hl | Hl].
+        - left. exact (all_old_labels n0 k0 Hok l Hl).
+        - destruct (Hx2 l Hl) as [? | [? ?]]; [left; assumption | right; lia]. }
+      match goal with |- context [zip_st ?f res kvs (S n)] => set (F := f) end.
+      assert (HM: let (ys, m') := zip_st F res kvs (S n) in
+                  S n <= m' /\ forall l, In l (flat_map (fun kv : lv * lv => let (a, b) := kv in labels a ++ labels b) ys) ->
+                                         l < n0 \/ (S n <= l /\ l < m')).
+      { clear -Hxs Hn. assert (Hm: n0 <= S n) by lia. revert Hm. generalize (S n) as m. revert res.
+        induction Hxs as [| kv r Hx Hr IHr]; intros res m Hm; destruct res as [| e res]; simpl; try (split; [lia | intros l []]).
+        specialize (Hx e m Hm). subst F. cbv beta in *. destruct kv as [k0 x].
+        destruct (run_pack E x call e m) as [y0 m1]. destruct Hx as [H1 Hy]. specialize (IHr res m1 ltac:(lia)).
+        match goal with |- context [zip_st ?f res r m1] => destruct (zip_st f res r m1) as [ys m3] end.
+        destruct IHr as [H2 Hys]. split; [lia |]. simpl. intros l Hl. apply in_app_or in Hl. destruct Hl as [Hl | Hl].
+        - destruct (Hy l Hl) as [? | [? ?]]; [left; assumption | right; lia].
+        - destruct (Hys l Hl) as [? | [? ?]]; [left; assumption | right; lia]. }
+      destruct (zip_st F res kvs (S n)) as [ys n']. destruct HM as [H1 H2].
+      split; [lia |]. unfold lab_ok; cbn [labels]; apply node_ok; [lia | exact H2].
     - (* VObj, ICall *)
       simpl.
       set (call' := if fw then call else None). set (kc := e_ct E c). set (N' := effN E call' kc).
@@ -224,7 +252,7 @@ Section UnpackLabels.
   Lemma unpack_labels_all : forall w, U_lab w.
   Proof.
     induction w as [z | | z | l0 | k l0 xs IH | k l0 kvs IH | c l0 fs IH] using lv_ind';
-      intros t; induction t as [| lk | | | t' IHt | o t' IHt | t' IHt | ts IHts | o kt IHk vt IHv | c0 | tw IHw | us IHus | | | dd] using ty_ind';
+      intros t; induction t as [| lk | | | t' IHt | o t' IHt | t' IHt | ts IHts | o kt IHk vt IHv | c0 | tw IHw | us IHus | | | dd | kk tc IHc | rk IHrk rv IHrv | rs IHrs] using ty_ind';
       intros n Ho Hn;
       try (apply IHw; assumption);
       try (cbn [cu]; rewrite ru_opt; first [apply ret_old; reflexivity | apply IHt; assumption]; fail);
@@ -270,6 +298,15 @@ Section UnpackLabels.
       pose proof (zip_st_labels (fun x t => run_unpack E x (cu t)) n0 xs Hxt ts (S n) ltac:(lia)) as HM.
       destruct (zip_st (fun x t => run_unpack E x (cu t)) ts xs (S n)) as [ys n']. destruct HM as [H1 H2].
       split; [lia |]. unfold lab_ok; cbn [labels]; apply node_ok; [lia | exact H2].
+    - (* VSeq, TComp *)
+      simpl.
+      assert (Hxs: Forall (fun x => forall m, n0 <= m ->
+                 let (y, m') := run_unpack E x (cu tc) m in m <= m' /\ lab_ok n0 m m' y) xs).
+      { simpl in Ho. apply andb_prop in Ho. destruct Ho as [_ Ho]. apply forallb_Forall in Ho.
+        pose proof (Forall_and _ _ _ IH Ho) as H. eapply Forall_impl; [| exact H]. intros x [Hx Hox] m Hm. apply Hx; auto. }
+      pose proof (map_st_labels (fun x => run_unpack E x (cu tc)) n0 xs Hxs (S n) ltac:(lia)) as HM.
+      destruct (map_st (fun x => run_unpack E x (cu tc)) xs (S n)) as [ys n']. destruct HM as [H1 H2].
+      split; [lia |]. unfold lab_ok; cbn [labels]; apply node_ok; [lia | exact H2].
     - (* VMap, TMap *)
       simpl.
       assert (Hxs: Forall (fun kv : lv * lv => forall m, n0 <= m ->
@@ -311,6 +348,70 @@ Section UnpackLabels.
                     (c_fields (e_ct E c0)) (S n) ltac:(lia)) as HM.
       match goal with |- context [zip_st ?f ?a kvs (S n)] => destruct (zip_st f a kvs (S n)) as [ys n'] end.
       destruct HM as [H1 H2]. split; [lia |]. unfold lab_ok; cbn [labels]; apply node_ok; [lia | exact H2].
+    - (* VMap, TRMap *)
+      simpl.
+      assert (Hxs: Forall (fun kv : lv * lv => forall m, n0 <= m ->
+                 let (y, m') := (let (k0, x) := kv in
+                                 let (k', m1) := run_unpack E k0 (cu rk) m in
+                                 let (x', m2) := run_unpack E x (cu rv) m1 in ((k', x'), m2)) in
+                 m <= m' /\ (forall l, In l (let (a, b) := y in labels a ++ labels b) -> l < n0 \/ (m <= l /\ l < m'))) kvs).
+      { simpl in Ho. apply andb_prop in Ho. destruct Ho as [_ Ho]. apply forallb_Forall in Ho.
+        pose proof (Forall_and _ _ _ IH Ho) as H. eapply Forall_impl; [| exact H].
+        intros [k0 x] [[Hk Hx] Hox] m Hm. simpl in *. apply andb_prop in Hox. destruct Hox as [Hok Hox].
+        specialize (Hk rk m Hok Hm). destruct (run_unpack E k0 (cu rk) m) as [k' m1]. destruct Hk as [Hk1 Hk2].
+        specialize (Hx rv m1 Hox ltac:(lia)). destruct (run_unpack E x (cu rv) m1) as [x' m2]. destruct Hx as [Hx1 Hx2].
+        split; [lia |]. intros l Hl. apply in_app_or in Hl. destruct Hl as [Hl | Hl].
+        - destruct (Hk2 l Hl) as [? | [? ?]]; [left; assumption | right; lia].
+        - destruct (Hx2 l Hl) as [? | [? ?]]; [left; assumption | right; lia]. }
+      match goal with |- context [map_st ?f kvs (S n)] => set (F := f) end.
+      assert (HM: let (ys, m') := map_st F kvs (S n) in
+                  S n <= m' /\ forall l, In l (flat_map (fun kv : lv * lv => let (a, b) := kv in labels a ++ labels b) ys) ->
+                                         l < n0 \/ (S n <= l /\ l < m')).
+      { clear -Hxs Hn. assert (Hm: n0 <= S n) by lia. revert Hm. generalize (S n) as m.
+        induction Hxs as [| kv r Hx Hr IHr]; intros m Hm; simpl; [split; [lia | intros l []] |].
+        specialize (Hx m Hm). subst F. cbv beta in *. destruct kv as [k0 x].
+        destruct (run_unpack E k0 (cu rk) m) as [k' m1]. destruct (run_unpack E x (cu rv) m1) as [x' m2].
+        destruct Hx as [H1 Hy]. specialize (IHr m2 ltac:(lia)).
+        match goal with |- context [map_st ?f r m2] => destruct (map_st f r m2) as [ys m3] end.
+        destruct IHr as [H2 Hys]. split; [lia |]. simpl. intros l Hl. apply in_app_or in Hl. destruct Hl as [Hl | Hl].
+        - destruct (Hy l Hl) as [? | [? ?]]; [left; assumption | right; lia].
+        - destruct (Hys l Hl) as [? | [? ?]]; [left; assumption | right; lia]. }
+      destruct (map_st F kvs (S n)) as [ys n']. destruct HM as [H1 H2].
+      split; [lia |]. unfold lab_ok; cbn [labels]; apply node_ok; [lia | exact H2].
+    - (* VMap, TRec *)
+      simpl.
+      assert (Hxs: Forall (fun kv : lv * lv => forall (t: ty) m, n0 <= m ->
+                 let (y, m') := (let (k0, x) := kv in let (y0, m1) := run_unpack E x (cu t) m in ((k0, y0), m1)) in
+                 m <= m' /\ (forall l, In l (let (a, b) := y in labels a ++ labels b) -> l < n0 \/ (m <= l /\ l < m'))) kvs).
+      { simpl in Ho. apply andb_prop in Ho. destruct Ho as [_ Ho]. apply forallb_Forall in Ho.
+        pose proof (Forall_and _ _ _ IH Ho) as H. eapply Forall_impl; [| exact H].
+        intros [k0 x] [[Hk Hx] Hox] t m Hm. simpl in *. apply andb_prop in Hox. destruct Hox as [Hok Hox].
+        specialize (Hx t m Hox Hm). destruct (run_unpack E x (cu t) m) as [y0 m1]. destruct Hx as [Hx1 Hx2].
+        split; [lia |]. intros l Hl. apply in_app_or in Hl. destruct Hl as [Hl | Hl].
+        - left. exact (all_old_labels n0 k0 Hok l Hl).
+        - destruct (Hx2 l Hl) as [? | [? ?]]; [left; assumption | right; lia]. }
+      assert (Hz: forall m,
+                 zip_st (fun (kv: lv * lv) e' m => let (k0, x) := kv in
+                           let (y0, m1) := run_unpack E x e' m in ((k0, y0), m1)) (map cu rs) kvs m
+                 = zip_st (fun (kv: lv * lv) t m => let (k0, x) := kv in
+                           let (y0, m1) := run_unpack E x (cu t) m in ((k0, y0), m1)) rs kvs m).
+      { clear. revert rs. induction kvs as [| [k0 x] r IHr]; intros rs m; destruct rs as [| t ts]; simpl; try reflexivity.
+        destruct (run_unpack E x (cu t) m) as [y m1]. now rewrite IHr. }
+      rewrite Hz.
+      match goal with |- context [zip_st ?f rs kvs (S n)] => set (F := f) end.
+      assert (HM: let (ys, m') := zip_st F rs kvs (S n) in
+                  S n <= m' /\ forall l, In l (flat_map (fun kv : lv * lv => let (a, b) := kv in labels a ++ labels b) ys) ->
+                                         l < n0 \/ (S n <= l /\ l < m')).
+      { clear -Hxs Hn. assert (Hm: n0 <= S n) by lia. revert Hm. generalize (S n) as m. revert rs.
+        induction Hxs as [| kv r Hx Hr IHr]; intros rs m Hm; destruct rs as [| t rs]; simpl; try (split; [lia | intros l []]).
+        specialize (Hx t m Hm). subst F. cbv beta in *. destruct kv as [k0 x].
+        destruct (run_unpack E x (cu t) m) as [y0 m1]. destruct Hx as [H1 Hy]. specialize (IHr rs m1 ltac:(lia)).
+        match goal with |- context [zip_st ?f rs r m1] => destruct (zip_st f rs r m1) as [ys m3] end.
+        destruct IHr as [H2 Hys]. split; [lia |]. simpl. intros l Hl. apply in_app_or in Hl. destruct Hl as [Hl | Hl].
+        - destruct (Hy l Hl) as [? | [? ?]]; [left; assumption | right; lia].
+        - destruct (Hys l Hl) as [? | [? ?]]; [left; assumption | right; lia]. }
+      destruct (zip_st F rs kvs (S n)) as [ys n']. destruct HM as [H1 H2].
+      split; [lia |]. unfold lab_ok; cbn [labels]; apply node_ok; [lia | exact H2].
   Qed.
 End UnpackLabels.
 
